@@ -686,4 +686,65 @@ pub mod verif_hooks {
             ),
         )
     }
+
+    /// One scanner step from a given state: `event` is `None` for a newline, `kind` indexes
+    /// `FullCodeCharKind`. State = (last_was_space, line_len, cur_line, newline_count,
+    /// current_line_contains_string_literal, format_line).
+    pub fn format_lines_step(
+        config: &Config,
+        skipped: &[(usize, usize)],
+        state: (bool, usize, usize, usize, bool, bool),
+        event: Option<char>,
+        kind: u8,
+    ) -> (
+        (bool, usize, usize, usize, bool, bool),
+        Vec<(usize, u8, usize, usize, bool, bool)>,
+    ) {
+        let kind = match kind {
+            0 => FullCodeCharKind::Normal,
+            1 => FullCodeCharKind::StartComment,
+            2 => FullCodeCharKind::InComment,
+            3 => FullCodeCharKind::EndComment,
+            4 => FullCodeCharKind::StartStringCommented,
+            5 => FullCodeCharKind::EndStringCommented,
+            6 => FullCodeCharKind::InStringCommented,
+            7 => FullCodeCharKind::StartString,
+            8 => FullCodeCharKind::EndString,
+            _ => FullCodeCharKind::InString,
+        };
+        let name = FileName::Stdin;
+        let mut formatter = FormatLines::new(&name, skipped, config);
+        formatter.last_was_space = state.0;
+        formatter.line_len = state.1;
+        formatter.cur_line = state.2;
+        formatter.newline_count = state.3;
+        formatter.current_line_contains_string_literal = state.4;
+        formatter.format_line = state.5;
+        match event {
+            Some(c) => formatter.char(c, kind),
+            None => formatter.new_line(kind),
+        }
+        let errors = formatter
+            .errors
+            .iter()
+            .map(|e| match e.kind {
+                ErrorKind::LineOverflow(found, max) => {
+                    (e.line, 0, found, max, e.is_comment, e.is_string)
+                }
+                ErrorKind::TrailingWhitespace => (e.line, 1, 0, 0, e.is_comment, e.is_string),
+                _ => (e.line, 2, 0, 0, e.is_comment, e.is_string),
+            })
+            .collect();
+        (
+            (
+                formatter.last_was_space,
+                formatter.line_len,
+                formatter.cur_line,
+                formatter.newline_count,
+                formatter.current_line_contains_string_literal,
+                formatter.format_line,
+            ),
+            errors,
+        )
+    }
 }
